@@ -73,6 +73,16 @@ func body(c cfg) explore.Body {
 			gg := &gpu{name: name, p: p, mem: make([]byte, memBytes)}
 			for j := range gg.mem {
 				gg.mem[j] = byte(j*7 + 1 + i*101 + j/256*3)
+				// sparse pages: some 64-byte units are all zero, some all ones, at
+				// positions that differ between the GPUs, so that a unit that is
+				// skipped, deduplicated or assumed zero leaves the destination's
+				// own (different, non-zero) bytes behind
+				switch k := j/64 + i; {
+				case k%3 == 1:
+					gg.mem[j] = 0
+				case k%5 == 2:
+					gg.mem[j] = 0xff
+				}
 			}
 			gg.init = append([]byte{}, gg.mem...)
 			gg.remote, gg.local, gg.ctrl = p.GetPortByName("Remote"), p.GetPortByName("LocalMem"), p.GetPortByName("Control")
